@@ -258,9 +258,15 @@ def run(ctx):
               'X3', 'retransmission happens only while the retry counter is in %s (finite budget, MAX=%d)' % (allowed, M),
               key=('X3', 'budget', str(allowed)), site=ctx.site(rt, rt.node))
     incs = [n for n in grt.nodes if self_store(n, rt) == 'retransmissions']
-    ctx.check(len(incs) == 1 and isinstance(incs[0].ast, ast.AugAssign) and isinstance(incs[0].ast.op, ast.Add)
-              and lin_const(lin(incs[0].ast.value, {})) == 1, 'X3', 'each retransmission increments the retry counter by 1',
-              key=('X3', 'counter-increment'), site=ctx.site(rt, rt.node))
+    from .. import tq as _tq
+    from ..sval import strip_ids as _sid, const as _const
+    _RT = ctx.sval(rt)
+    _me = ('param', 'self')
+    _cnt = ('attr', _me, 'retransmissions')
+    _st = [_sid(v) for t, v, pc, st, _ in _RT.stores if _sid(t) == _cnt]
+    ctx.check(len(incs) == 1 and len(_st) == 1 and _st[0][0] == 'add' and sorted(_st[0][1], key=repr) == sorted((_cnt, _const(1)), key=repr), 'X3',
+              'each retransmission increments the retry counter by 1', key=('X3', 'counter-increment'), site=ctx.site(rt, rt.node),
+              detail={'stored': [_tq.text(x, 80) for x in _st]})
     for r in retn:
         for i in incs:
             ctx.check(r.id not in grt.reach([grt.entry], blocked_nodes=[i]), 'X3',
@@ -282,18 +288,17 @@ def run(ctx):
     adv = [n for n in grt.nodes if self_store(n, rt) == 'retransmit_at']
     ctx.check(len(adv) == 1, 'X3', 'the deadline is advanced in one place', key=('X3', 'deadline-advance-count'),
               site=ctx.site(rt, rt.node))
-    for a in adv:
-        v = a.ast.value if isinstance(a.ast, ast.Assign) else None
-        t = src(v) if v is not None else src(a.ast)
-        shape = isinstance(v, ast.BinOp) and isinstance(v.op, ast.Add) and src(v.left) in ('self.retransmit_at', 'now', 'time.time()') \
-            and isinstance(v.right, ast.BinOp) and isinstance(v.right.op, ast.Mult) \
-            and {src(v.right.left), src(v.right.right)} == {'self.retransmissions', 'IkeSa.RETRANSMISSION_DELAY'}
-        ctx.check(shape, 'X3', 'next deadline = previous + counter x RETRANSMISSION_DELAY: intervals are positive and '
-                  'non-decreasing (`%s`)' % t, key=('X3', 'back-off-expression'), site=ctx.site(rt, a.ast))
-        for i in incs:
-            ctx.check(a.id in grt.reach([i]) and i.id not in grt.reach([a]), 'X3',
-                      'the counter is incremented before it scales the interval', key=('X3', 'back-off-order'),
-                      site=ctx.site(rt, a.ast))
+    _dl = ('attr', _me, 'retransmit_at')
+    _adv = [_sid(v) for t, v, pc, st, _ in _RT.stores if _sid(t) == _dl]
+    _delay = _sid(_RT.expr('IkeSa.RETRANSMISSION_DELAY'))
+    okb = len(_adv) == 1 and _adv[0][0] == 'add' and len(_adv[0][1]) == 2 and _dl in _adv[0][1]
+    if okb:
+        step = [x for x in _adv[0][1] if x != _dl][0]
+        # counter (already incremented) x delay, in either operand order
+        okb = step[0] == 'bin' and step[1] == '*' and _delay in step[2:] and \
+            any(_sid(x) in (_st[0] if _st else None, _cnt) for x in step[2:] if x != _delay)
+    ctx.check(okb, 'X3', 'next deadline = previous + counter x RETRANSMISSION_DELAY: intervals are positive and non-decreasing',
+              key=('X3', 'back-off-expression'), site=ctx.site(rt, rt.node), detail={'stored': [_tq.text(x, 120) for x in _adv]})
 
     # ---------------------------------------------------------------- X4 (shared with C09/S2)
     ts = common.typestate(ctx, esc)
